@@ -121,17 +121,29 @@ class install(repo_ops.install):
 
 class uninstall(repo_ops.uninstall):
     def __init__(self, repo, pkg, observer):
-        self.remove_path = pjoin(
-            repo.location, pkg.category, pkg.package + "-" + pkg.fullver
-        )
+        base = pjoin(repo.location, pkg.category)
+        dirname = f"{pkg.package}-{pkg.fullver}"
+        self.remove_path = pjoin(base, dirname)
+        # The entry is renamed to this hidden name (vdb listing skips ".tmp."
+        # entries) before it is wiped, so an interrupted removal never leaves
+        # a half deleted entry visible.
+        self.tmp_remove_path = pjoin(base, f".tmp.unmerge.{dirname}")
         super().__init__(repo, pkg, observer)
 
     def remove_data(self):
         return True
 
+    def _hide_entry(self):
+        """Atomically take the entry out of the vdb listing."""
+        if os.path.lexists(self.tmp_remove_path):
+            # leftover from an interrupted run
+            shutil.rmtree(self.tmp_remove_path)
+        os.rename(self.remove_path, self.tmp_remove_path)
+
     def finalize_data(self):
         update_mtime(self.repo.location)
-        shutil.rmtree(self.remove_path)
+        self._hide_entry()
+        shutil.rmtree(self.tmp_remove_path)
         update_mtime(self.repo.location)
         return True
 
@@ -148,13 +160,28 @@ class replace(repo_ops.replace, install, uninstall):
         return install.add_data(self, domain)
 
     def finalize_data(self):
-        # XXX: should really restructure this into
-        # a rename of the unmerge dir, rename merge into it's place (for
-        # literal same fullver replacements), then wipe the unmerge
-        # that minimizes the window for races, and gets the data in place
-        # should unmerge somehow die.
-        uninstall.finalize_data(self)
-        install.finalize_data(self)
+        # Only renames happen while both entries are in flux; the old entry
+        # is wiped once the new one is in place, thus an interruption never
+        # exposes a partially removed entry.
+        update_mtime(self.repo.location)
+        if self.remove_path == self.install_path:
+            # same fullver: the old entry has to give up the name first.
+            self._hide_entry()
+            try:
+                os.rename(self.tmp_write_path, self.install_path)
+            except OSError:
+                os.rename(self.tmp_remove_path, self.remove_path)
+                raise
+        else:
+            # never drop the old record before the new one is visible.
+            os.rename(self.tmp_write_path, self.install_path)
+            try:
+                self._hide_entry()
+            except OSError:
+                os.rename(self.install_path, self.tmp_write_path)
+                raise
+        shutil.rmtree(self.tmp_remove_path)
+        update_mtime(self.repo.location)
         return True
 
 
